@@ -86,14 +86,14 @@ def step (toks : List String) : String :=
     let fs := parseFields rest
     let r := load particleSize special table elem_reb_particle elem_reb_variational_configuration pSimOff vSimOff
       self.toNat! zeroSim fs
-    "W " ++ showWarns r.2 ++ " F " ++ showFields (encode particleSize special table r.1 (fpOf fs))
+    "W " ++ showWarns r.2 ++ " F " ++ showFields (encode particleSize special table r.1 false)
   | "LOADI" :: self :: rest =>
     let (i, f) := splitBar rest
     let init := (decodeFields particleSize special table (zeroSim, []) (parseFields i)).1
     let fs := parseFields f
     let r := load particleSize special table elem_reb_particle elem_reb_variational_configuration pSimOff vSimOff
       self.toNat! init fs
-    "W " ++ showWarns r.2 ++ " F " ++ showFields (encode particleSize special table r.1 (fpOf fs))
+    "W " ++ showWarns r.2 ++ " F " ++ showFields (encode particleSize special table r.1 false)
   | "CMP" :: rest =>
     let (a, b) := splitBar rest
     if compare special cmpSpecs table (parseFields a) (parseFields b) then "1" else "0"
